@@ -1,87 +1,13 @@
 // C05 — node identity is stable: nodes never move, never silently change, never alias.
 // Every re-read below is a checked access in the engine, so storage that was relocated or released shows up as a use-after-free
 // at the first re-read (natively: AddressSanitizer on replay).
-#include "zoo.h"
-#include <type_traits>
+#include "fingerprint.h"
 #ifndef C05_REPS
 #define C05_REPS 9
 #endif
 #ifndef C05_FULL_ROUND
 #define C05_FULL_ROUND 0
 #endif
-namespace {
-   template<class T> struct Peek : ipr::Sequence<T> { using ipr::Sequence<T>::get; };
-   template<class T> const T& at(const ipr::Sequence<T>& s, std::size_t i) { return (s.*&Peek<T>::get)(i); }
-   template<class T> struct is_optional : std::false_type { };
-   template<class T> struct is_optional<ipr::Optional<T>> : std::true_type { };
-   template<class T> std::true_type is_seq_f(const ipr::Sequence<T>*);
-   std::false_type is_seq_f(...);
-   template<class T> constexpr bool is_seq = decltype(is_seq_f(static_cast<const std::remove_reference_t<T>*>(nullptr)))::value;
-
-   // everything observable through a node: one slot per accessor
-   struct Slot { uint64_t kind; uint64_t v[4]; };          // kind 0 scalar/address, 1 sequence (size, first three element addresses), 2 refused
-   struct Fingerprint {
-      Slot s[40]; int n = 0;
-      void scalar(uint64_t x) { if (n < 40) s[n++] = { 0, { x, 0, 0, 0 } }; }
-      void refused() { if (n < 40) s[n++] = { 2, { 0, 0, 0, 0 } }; }
-      template<class T> void seq(const ipr::Sequence<T>& q) {
-         Slot sl { 1, { q.size(), 0, 0, 0 } };
-         for (std::size_t i = 0; i < q.size() && i < 3; ++i) sl.v[1 + i] = (uint64_t)(uintptr_t)&at(q, i);
-         if (n < 40) s[n++] = sl;
-      }
-   };
-   // later == earlier, except that a sequence may have gained members at its end
-   bool unchanged(const Fingerprint& a, const Fingerprint& b) {
-      if (a.n != b.n) return false;
-      bool ok = true;
-      for (int i = 0; i < a.n; ++i) {
-         if (a.s[i].kind != b.s[i].kind) { ok = false; continue; }
-         if (a.s[i].kind == 1) { if (b.s[i].v[0] < a.s[i].v[0]) ok = false; for (uint64_t k = 0; k < a.s[i].v[0] && k < 3; ++k) if (a.s[i].v[1 + k] != b.s[i].v[1 + k]) ok = false; }
-         else if (a.s[i].v[0] != b.s[i].v[0]) ok = false;
-      }
-      return ok;
-   }
-   template<class R> void fold(Fingerprint& f, R&& r) {
-      using T = std::remove_cvref_t<R>;
-      if constexpr (is_optional<T>::value) f.scalar(r.is_valid() ? (uint64_t)(uintptr_t)&r.get() : 0);
-      else if constexpr (is_seq<T>) f.seq(r);
-      else if constexpr (std::is_same_v<T, util::word_view>) { uint64_t h = r.size(); for (std::size_t i = 0; i < r.size() && i < 6; ++i) h = h * 257 + r[i]; f.scalar(h); }
-      else if constexpr (std::is_enum_v<T>) f.scalar((uint64_t)r);
-      else if constexpr (std::is_integral_v<T>) f.scalar((uint64_t)r);
-      else if constexpr (std::is_class_v<T>) f.scalar((uint64_t)(uintptr_t)&r);
-      else f.scalar(0);
-   }
-#define VP_FP(name) if constexpr (requires { n.name(); }) { try { fold(f, n.name()); } catch (const std::logic_error&) { f.refused(); } }
-   template<class I> void fingerprint(const void* p, Fingerprint& f) {
-      const I& n = *static_cast<const I*>(p);
-      if constexpr (std::is_base_of_v<ipr::Node, I>) f.scalar((uint64_t)n.category);
-      VP_FP(operand) VP_FP(first) VP_FP(second) VP_FP(third) VP_FP(type) VP_FP(implementation) VP_FP(name) VP_FP(transfer) VP_FP(characters) VP_FP(enclosing) VP_FP(owner) VP_FP(body) VP_FP(bindings)
-      VP_FP(global) VP_FP(elements) VP_FP(region) VP_FP(members) VP_FP(bases) VP_FP(kind) VP_FP(base) VP_FP(mode) VP_FP(parameters) VP_FP(result) VP_FP(delimiters) VP_FP(resolution) VP_FP(operation)
-      VP_FP(pattern) VP_FP(instance) VP_FP(level) VP_FP(phases) VP_FP(expression) VP_FP(designators) VP_FP(nominated_scope) VP_FP(handlers) VP_FP(initializer) VP_FP(condition) VP_FP(increment)
-      VP_FP(variable) VP_FP(sequence) VP_FP(from) VP_FP(iteration) VP_FP(home_region) VP_FP(master) VP_FP(decl_set) VP_FP(mapping) VP_FP(position) VP_FP(precision) VP_FP(specifiers) VP_FP(qualifiers)
-      VP_FP(concept_name) VP_FP(type_name) VP_FP(flavor) VP_FP(species) VP_FP(target) VP_FP(subobject) VP_FP(index) VP_FP(token) VP_FP(lexeme) VP_FP(spelling) VP_FP(value) VP_FP(parent_module) VP_FP(global_namespace)
-   }
-#undef VP_FP
-   struct Tracker {
-      struct Rec { const void* p; void (*fp)(const void*, Fingerprint&); Fingerprint before; bool is_node; };
-      Rec rec[12]; int n = 0; bool gen = false;
-      void generative() { gen = true; }
-      template<class I> void node(const I& x) {
-         if (n < 12) { Rec& r = rec[n++]; r.p = &x; r.fp = &fingerprint<I>; r.is_node = std::is_base_of_v<ipr::Node, I>; }
-      }
-      void operands(bool) { }
-      template<class N> void typed(const N&, const ipr::Type*) { }
-      void snapshot() { for (int i = 0; i < n; ++i) { rec[i].before.n = 0; rec[i].fp(rec[i].p, rec[i].before); } }      // taken once the client (the zoo case) has finished setting links
-      void recheck(int id) { for (int i = 0; i < n; ++i) { Fingerprint now; rec[i].fp(rec[i].p, now); vp_assert(unchanged(rec[i].before, now), id); } }
-   };
-   struct First_node {
-      const void* first = nullptr; bool gen = false;
-      void generative() { gen = true; }
-      template<class I> void node(const I& x) { if (!first) first = &x; }
-      void operands(bool) { }
-      template<class N> void typed(const N&, const ipr::Type*) { }
-   };
-}
 // a node of a symbolically chosen factory is tracked while the same factory (same store) is used C05_REPS more times
 // (past three capacity doublings of any growing store) and, in the thorough tier, every other factory once
 extern "C" void h_after_growth(void) {
